@@ -506,6 +506,7 @@ class UserTrackingManager:
         self._network: Network = network
 
         self._tracked_users: dict[str, TrackedUser] = dict()
+        self._sends_in_progress: int = 0
 
         self.register_listeners()
 
@@ -630,10 +631,14 @@ class UserTrackingManager:
 
         username = tracked_user.user.name
         try:
+            self._sends_in_progress += 1
             await self._network.send_server_messages(AddUser.Request(username))
 
         except Exception:
             return RETRY_TIMEOUT_NET_ERROR, "failed to send tracking message", None
+
+        finally:
+            self._sends_in_progress -= 1
 
         try:
             response = await self._network.wait_for_server_message(
@@ -656,6 +661,7 @@ class UserTrackingManager:
     async def _request_untracking(self, tracked_user: TrackedUser):
         username = tracked_user.user.name
         try:
+            self._sends_in_progress += 1
             await self._network.send_server_messages(RemoveUser.Request(username))
 
         except Exception as exc:
@@ -663,6 +669,9 @@ class UserTrackingManager:
                 "failed to send untracking request for user %s : %r",
                 username, exc
             )
+
+        finally:
+            self._sends_in_progress -= 1
 
     async def _set_tracking_state(
             self, tracked_user: TrackedUser, state: TrackingState,
@@ -736,8 +745,11 @@ class UserTrackingManager:
 
         if event.state == ConnectionState.CLOSED:
             tasks = self.stop()
-            if tasks:
-                await asyncio.gather(*self.stop(), return_exceptions=True)
+            # A failed write of a tracking task closes the connection and runs
+            # this listener inside that write: waiting for the cancelled tasks
+            # would make the tracking task wait for itself
+            if tasks and not self._sends_in_progress:
+                await asyncio.gather(*tasks, return_exceptions=True)
 
     def stop(self) -> list[asyncio.Task]:
         tasks = []
